@@ -137,6 +137,17 @@ func (u *memoryManagementUnit) pushLineToL3(addr comp.AlignedAddress, line []int
 	u.writeToMemory(int32(evicted.Boundary[0]), evicted.Data)
 }
 
+// cancelPending forgets the pending fetch of the line starting at base (the
+// load that asked for it was flushed).
+func (u *memoryManagementUnit) cancelPending(base int32) {
+	for i, pending := range u.pendings {
+		if pending[0] == base {
+			u.pendings = append(u.pendings[:i], u.pendings[i+1:]...)
+			return
+		}
+	}
+}
+
 func (u *memoryManagementUnit) writeToL3(addr int32, data []int8) {
 	u.l3.Write(addr, data)
 }
